@@ -97,7 +97,11 @@ def gen_par(r, forest, seed, tag):
         return None
     spec = draw_policy_spec(r)
     if spec["kind"] in ("window", "rendezvous"):  # those anchors belong to the checking code, not to the import hook
-        spec = {"kind": "random", "p": r.choice((0.02, 0.05, 0.1, 0.3))}
+        # PCT (few priority change points, otherwise run-to-completion) reaches "A enters, B enters, A runs to the end, B goes
+        # on" orders that per-line coin flips practically never produce across a few hundred traced lines
+        x = r.random()
+        spec = ({"kind": "hot", "p_hot": r.choice((0.3, 0.5)), "p": r.choice((0.0, 0.003, 0.01))} if x < 0.45 else
+                {"kind": "pct", "d": r.choice((1, 2, 3))} if x < 0.75 else {"kind": "random", "p": r.choice((0.02, 0.05, 0.1, 0.3))})
     return {"op": "par", "threads": threads, "sched": spec, "sched_seed": H(seed, "par", tag)}
 
 
